@@ -153,7 +153,7 @@ def main(argv=None):
 
     print(f"[{pid}] tier={args.tier} VERIF_SEED={seed} runs={len(jobs)} jobs={args.jobs} repo={install.REPO}",
           flush=True)
-    timeout_s = 90 if args.tier == "quick" else 240
+    timeout_s = 240
     log_path = os.path.join(HERE, "evidence", f".{pid}.farm.log")
     os.makedirs(os.path.dirname(log_path), exist_ok=True)
     results, timed_out = farm.run_jobs(jobs, mod.run_job, nproc=args.jobs, timeout_s=timeout_s,
@@ -274,6 +274,8 @@ def main(argv=None):
         again, _ = farm.run_jobs([jobs[i] for i in idxs], mod.run_job, nproc=min(4, args.jobs), timeout_s=timeout_s,
                                  init_fn=install.install, log_path=log_path)
         for i, r2 in zip(idxs, again):
+            if (r2 or {}).get("wall_limit") or (results[i] or {}).get("wall_limit"):
+                continue          # cut off by the wall budget: where it was cut depends on the machine's load
             det["pairs"] += 1
             if not r2 or r2.get("digest") != results[i].get("digest"):
                 det["mismatches"] += 1
